@@ -236,7 +236,7 @@ func c05Round(c *Case) {
 			case r < 9:
 				op.kind = "compile"
 			default:
-				op.kind = []string{"compile-ns", "pkg-select"}[g.Intn(2)]
+				op.kind = []string{"compile-ns", "pkg-select", "mustcompile-invalid"}[g.Intn(3)]
 			}
 			mode := op.kind
 			if strings.HasPrefix(mode, "compile") {
@@ -244,6 +244,14 @@ func c05Round(c *Case) {
 			}
 			if mode == "pkg-select" {
 				mode = "select"
+			}
+			if op.kind == "mustcompile-invalid" {
+				// an expression that does not compile, unique to this operation: MustCompile returns an expression
+				// that carries this text and selects nothing
+				op.other = fmt.Sprintf("%s[%d%d(", srcs[op.expr], gi, i)
+				op.want = op.other + " => END"
+				ops = append(ops, op)
+				continue
 			}
 			op.want = soloDigest(c, srcs[op.expr], ctxs[op.ctx], mode, op.k)
 			ops = append(ops, op)
@@ -280,6 +288,13 @@ func c05Round(c *Case) {
 						op.got = "COMPILE-ERROR " + err.Error()
 					} else {
 						op.got = opDigest(ce, ctxs[op.ctx], "evaluate", 0, yield)
+					}
+				case "mustcompile-invalid":
+					e := xpath.MustCompile(op.other)
+					if e == nil {
+						op.got = "nil"
+					} else {
+						op.got = e.String() + " => " + opDigest(e, ctxs[op.ctx], "select", 0, yield)
 					}
 				case "pkg-select":
 					// the deprecated package-level entry point: compiles and selects in one call
@@ -319,7 +334,7 @@ func c05Round(c *Case) {
 	for _, op := range all {
 		c.Rep.Evals++
 		k := op.kind
-		if strings.HasPrefix(k, "compile") || k == "pkg-select" {
+		if strings.HasPrefix(k, "compile") || k == "pkg-select" || k == "mustcompile-invalid" {
 			k = "compile"
 		}
 		c.Count("op:" + k)
@@ -356,7 +371,7 @@ func c05Round(c *Case) {
 			if b.call > a.ret {
 				break
 			}
-			if a.expr == b.expr && a.g != b.g && !strings.HasPrefix(a.kind, "compile") && !strings.HasPrefix(b.kind, "compile") && a.kind != "pkg-select" && b.kind != "pkg-select" {
+			if a.expr == b.expr && a.g != b.g && !strings.HasPrefix(a.kind, "compile") && !strings.HasPrefix(b.kind, "compile") && a.kind != "pkg-select" && b.kind != "pkg-select" && a.kind != "mustcompile-invalid" && b.kind != "mustcompile-invalid" {
 				overlap++
 			}
 		}
